@@ -183,7 +183,7 @@ def route(p0: int, p1: int, p2: int, idx: int, v0: int, d0: int, d1: int) -> boo
     if m['start'][1] != want_path:
         return fail('request path is not the upstream URL path', got=repr(m['start'][1]), want=repr(want_path))
     hs = [(k, v) for k, n, v in m['headers']]
-    explicit_port = (r, idx if idx < len(tg) else 0) in (('multi', 0), ('tls', 0), ('dynurl', 0))
+    explicit_port = (r, idx if idx < len(tg) else 0) in (('multi', 0), ('tls', 0), ('dynurl', 0), ('p1', 0), ('p2', 0))
     want_host = (host.encode() + ((b':%d' % port) if explicit_port else b'')) if rewrite else b'front.example'
     hosts = [v for k, v in hs if k == b'host']
     if hosts != [want_host]:
